@@ -63,7 +63,7 @@ theorem torusFaces_eq (M N : Nat) :
     torusFaces M N false = (List.range M).flatMap (fun i => (List.range N).flatMap (fun j => [torusQuad M N i j])) ∧
     torusFaces M N true = (List.range M).flatMap (fun i => (List.range N).flatMap (fun j =>
       [torusTri M N i j false, torusTri M N i j true])) := by
-  constructor <;> simp [torusFaces, torusQuad, torusTri]
+  constructor <;> (rw [torusFaces_norm]; simp [torusFacesCanon, torusQuad, torusTri])
 
 /-- consistent orientation (quads): a directed edge lies in at most one face -/
 theorem torus_quads_oriented (M N : Nat) (hM : 3 ≤ M) (hN : 3 ≤ N) (i j i' j' : Nat) (hi : i < M) (hj : j < N)
@@ -218,6 +218,6 @@ theorem unit_gridFaces_eq (nu nv : Nat) (u : Bool) :
       if i < nu - 1 ∧ j < nv - 1 then [gridQuad nv i j] else [])) ∧
     unit_gridFaces nu nv true u = (List.range nu).flatMap (fun i => (List.range nv).flatMap (fun j =>
       if i < nu - 1 ∧ j < nv - 1 then [gridTri nv i j false, gridTri nv i j true] else [])) := by
-  constructor <;> simp [unit_gridFaces, gridQuad, gridTri]
+  constructor <;> (rw [unit_gridFaces_norm]; simp [unit_gridFacesCanon, gridQuad, gridTri])
 
 end Mouette.Props.C14
